@@ -829,6 +829,148 @@ def errname(e):
     return type(e).__name__
 
 
+# ------------------------------------------------------------------ pins: constants of the anchored code
+
+_MESSAGE = re.compile(r"^(invalid|expected|unexpected|undefined|both |no valid|strings cannot|incompatible|"
+                      r"declared|pattern does not)|[A-Za-z]{3,} [a-z]{3,} [a-z]{2,}", re.I)
+
+
+def _render(c):
+    if isinstance(c, bool) or c is None:
+        return None
+    if isinstance(c, (int, float)):
+        return str(c)
+    if isinstance(c, str):
+        return c
+    if isinstance(c, (tuple, frozenset)):
+        parts = [_render(x) for x in (sorted(c) if isinstance(c, frozenset) else c)]
+        if any(p_ is None for p_ in parts):
+            parts = [p_ if p_ is not None else "None" for p_ in parts]
+        return "(" + ",".join(parts) + ")"
+    return None
+
+
+def code_consts(fn, names=False):
+    """string / number / tuple constants of a function's code object and of the code objects nested in it
+    (inner functions, lambdas, comprehensions), in order; docstrings and message texts dropped.  With
+    names=True the attribute/global names the code uses (co_names) are appended after a "|" marker."""
+    code = getattr(fn, "__code__", fn)
+    out = []
+    nm = []
+
+    def walk(co, doc):
+        for c in co.co_consts:
+            if hasattr(c, "co_consts"):
+                walk(c, None)
+                continue
+            if isinstance(c, str) and (c == doc or _MESSAGE.search(c)):
+                continue
+            r = _render(c)
+            if r is not None:
+                out.append(r)
+        nm.extend(co.co_names)
+    walk(code, getattr(fn, "__doc__", None))
+    if names:
+        out.append("|")
+        out.extend(nm)
+    return out
+
+
+def defaults_of(fn):
+    d = [repr(x) for x in (fn.__defaults__ or ())]
+    d += ["%s=%r" % kv for kv in sorted((fn.__kwdefaults__ or {}).items())]
+    return d
+
+
+def pin_values():
+    """name -> list of strings: everything of the anchored code that the models hand-code an equivalent of"""
+    from delphin import lnk as dlnk, util as dutil
+    from delphin.mrs import _mrs as dmrs
+    P = {}
+    flat = lambda toks: [x for pat, name in toks for x in (pat, name)]   # noqa: E731
+    # --- simplemrs
+    P["c01SimpleLexer"] = flat(simplemrs.SimpleMRSLexer.tokens)
+    P["c01SimpleEscapes"] = [x for kv in simplemrs._ESCAPES.items() for x in kv]
+    P["c01SimpleUnescapes"] = [x for kv in simplemrs._UNESCAPES.items() for x in kv]
+    for fn in ("_decode", "_decode_mrs", "_decode_lnk", "_decode_dqstring", "_decode_variable", "_decode_rel",
+               "_decode_predicate", "_decode_cons"):
+        P["c01Simple" + fn] = code_consts(getattr(simplemrs, fn), names=True)
+    for fn in ("_encode", "_encode_mrs", "_encode_surface_info", "_encode_hook", "_encode_variable", "_encode_rels",
+               "_encode_predicate", "_encode_hcons", "_encode_icons", "_escape", "_unescape", "decode", "loads"):
+        P["c01Simple" + fn] = code_consts(getattr(simplemrs, fn))
+    # --- indexedmrs
+    P["c01IndexedLexer"] = flat(indexedmrs._IndexedMRSLexer.tokens)
+    for fn in ("_decode", "_decode_indexed", "_decode_proplist", "_decode_rels", "_decode_rel", "_decode_lnk",
+               "_find_synopsis", "_decode_arglist", "_decode_cons", "_match_properties"):
+        P["c01Indexed" + fn] = code_consts(getattr(indexedmrs, fn), names=True)
+    for fn in ("_encode", "_encode_indexed", "_prepare_variable_properties", "_encode_variable", "_encode_rel",
+               "_encode_hcons", "_encode_icons", "_escape", "_unescape"):
+        P["c01Indexed" + fn] = code_consts(getattr(indexedmrs, fn))
+    # --- lnk
+    P["c01LnkTypes"] = [str(x) for x in (Lnk.UNSPECIFIED, Lnk.CHARSPAN, Lnk.CHARTSPAN, Lnk.TOKENS, Lnk.EDGE)]
+    P["c01LnkInit"] = code_consts(Lnk.__init__, names=True)
+    P["c01LnkStr"] = code_consts(Lnk.__str__)
+    P["c01LnkBool"] = code_consts(Lnk.__bool__)
+    P["c01LnkCfrom"] = code_consts(dlnk.LnkMixin.cfrom.fget)
+    P["c01LnkCto"] = code_consts(dlnk.LnkMixin.cto.fget)
+    # --- predicate / variable / sembase
+    # the part-of-speech class is built from a set: its character order is arbitrary per process -> sorted
+    poscls, possorted = "[%s]" % "".join(dpred._POS), "[%s]" % "".join(sorted(dpred._POS))
+    P["c01PredPatterns"] = [x.replace(poscls, possorted) for x in (dpred._lemma_re.pattern, dpred._pos_re.pattern, str(int(dpred._pos_re.flags)),
+                            dpred._sense_re.pattern, dpred._strict_predicate_re.pattern,
+                            str(int(dpred._strict_predicate_re.flags)), dpred._robust_predicate_re.pattern,
+                            str(int(dpred._robust_predicate_re.flags)))]
+    for fn in ("_strip_predicate", "split", "create", "normalize", "is_surface", "is_abstract"):
+        P["c01Pred" + fn] = code_consts(getattr(dpred, fn), names=True)
+    P["c01VariableRe"] = [variable._variable_re.pattern, str(int(variable._variable_re.flags))]
+    P["c01VariableSplit"] = code_consts(variable.split, names=True)
+    P["c01VariableType"] = code_consts(variable.type, names=True)
+    P["c01RolePriority"] = code_consts(sembase.role_priority, names=True)
+    P["c01PropertyPriority"] = code_consts(sembase.property_priority, names=True)
+    # --- the MRS object
+    P["c01MrsRoles"] = [dmrs.INTRINSIC_ROLE, dmrs.RESTRICTION_ROLE, dmrs.BODY_ROLE, dmrs.CONSTANT_ROLE, dmrs._QUANTIFIER_TYPE]
+    P["c01EPInit"] = code_consts(EP.__init__)
+    P["c01FillVariables"] = code_consts(dmrs._fill_variables, names=True)
+    # --- mrx
+    for fn in ("_decode", "_decode_mrs", "_decode_label", "_decode_var", "_decode_extrapairs", "_decode_ep",
+               "_decode_pred", "_decode_args", "_decode_hcons", "_decode_icons", "_decode_lnk"):
+        P["c01Mrx" + fn] = code_consts(getattr(mrx, fn), names=True)
+    for fn in ("_encode", "_encode_mrs", "_encode_label", "_encode_variable", "_encode_extrapair", "_encode_ep",
+               "_encode_pred", "_encode_arg", "_encode_constant", "_encode_hcon", "_encode_icon", "_tostring"):
+        P["c01Mrx" + fn] = code_consts(getattr(mrx, fn))
+    # --- mrsjson
+    for fn in ("to_dict", "from_dict", "encode", "decode", "dumps", "loads", "dump", "load"):
+        P["c01Json_" + fn] = code_consts(getattr(mrsjson, fn))
+    # --- semi
+    P["c01SemiTypes"] = [dsemi.STRING_TYPE, dsemi.TOP_TYPE]
+    P["c01SemiSubsumes"] = code_consts(dsemi.Synopsis.subsumes, names=True)
+    P["c01SemiFindSynopsis"] = code_consts(dsemi.SemI.find_synopsis, names=True)
+    # --- the look-ahead lexer
+    P["c01LookaheadDefaults"] = defaults_of(dutil.LookaheadIterator.__init__) + defaults_of(dutil.LookaheadLexer.__init__)
+    P["c01LexerPrelex"] = code_consts(dutil.Lexer.prelex, names=True)
+    # --- default arguments of the public API
+    for name, mod in (("Simple", simplemrs), ("Mrx", mrx), ("Json", mrsjson), ("Indexed", indexedmrs)):
+        P["c01Defaults" + name] = [x for fn in ("encode", "decode", "dumps", "loads", "dump", "load")
+                                   for x in [fn + ":"] + defaults_of(getattr(mod, fn))]
+    return P
+
+
+def pin_tables():
+    esc = simplemrs._ESCAPES
+    lines = [
+        "def c01CommonProperties : List String := [%s]"
+        % ", ".join(tables.lean_strlit(s) for s in sembase._COMMON_PROPERTIES),
+        "def c01Pos : List Char := [%s]" % ", ".join(tables.lean_char(c) for c in sorted(dpred._POS)),
+        "def c01Escapes : List (Char × List Char) := [%s]"
+        % ", ".join("(%s, %s)" % (tables.lean_char(k), tables.lean_str(v)) for k, v in esc.items()),
+        "def c01ConstantRole : String := %s" % tables.lean_strlit(simplemrs.CONSTANT_ROLE),
+        "def c01TopFeature : String := %s" % tables.lean_strlit(simplemrs.TOP_FEATURE),
+    ]
+    for name, vals in pin_values().items():
+        lines.append("def %s : List String := [%s]" % (name, ", ".join(tables.lean_strlit(v) for v in vals)))
+    return lines
+
+
 class C01(Check):
     pid = "C01"
     quick_cases = 1500
@@ -878,16 +1020,7 @@ class C01(Check):
     ]
 
     def tables(self):
-        esc = simplemrs._ESCAPES
-        return [
-            "def c01CommonProperties : List String := [%s]"
-            % ", ".join(tables.lean_strlit(s) for s in sembase._COMMON_PROPERTIES),
-            "def c01Pos : List Char := [%s]" % ", ".join(tables.lean_char(c) for c in sorted(dpred._POS)),
-            "def c01Escapes : List (Char × List Char) := [%s]"
-            % ", ".join("(%s, %s)" % (tables.lean_char(k), tables.lean_str(v)) for k, v in esc.items()),
-            "def c01ConstantRole : String := %s" % tables.lean_strlit(simplemrs.CONSTANT_ROLE),
-            "def c01TopFeature : String := %s" % tables.lean_strlit(simplemrs.TOP_FEATURE),
-        ]
+        return pin_tables()
 
     def setup(self):
         self.tmp = tempfile.mkdtemp(dir="/var/tmp", prefix="c01-")
